@@ -1191,7 +1191,7 @@ func genSan(c *genCtx, sw *shardWriter, j *jb) {
 	nEmit := 0
 	emit := func(b []byte) {
 		nEmit++
-		if len(b) <= 2 && len(b) > 0 && (b[0] >= 0x7e || b[0] == 'a') || nEmit%16 == 0 {
+		if len(b) == 1 || len(b) == 2 && bytes.IndexByte(utf8Boundary, b[0]) >= 0 && bytes.IndexByte(utf8Boundary, b[1]) >= 0 || nEmit%64 == 0 {
 			// every destination shape (contents short and long, free room 0..8 and ample, and room for exactly
 			// the result minus 0..3): in-place writers are wrong only for particular amounts of free room
 			for _, pre := range pres {
